@@ -22,6 +22,18 @@ def step? (line : String) : Option String :=
         | .ok d => magSummary d
         | _ => "-"
       some s!"{cs.tag} | {outcomeName cs.out} | {summ} | {" || ".intercalate fails}"
+  -- `mdsN <case line>` (N = 11, 12, 13): one property's clauses only (profiling / replay aid)
+  | cmd :: rest =>
+    if cmd == "mds11" || cmd == "mds12" || cmd == "mds13" then
+      match parseMagCase? ("mds" :: rest) with
+      | none => some "bad-case"
+      | some cs =>
+        match cs.out with
+        | .ok d =>
+          let fails := if cmd == "mds11" then checkC11 cs d else if cmd == "mds12" then checkC12 cs d else checkC13 cs d
+          some s!"{cs.tag} | ok | {magSummary d} | {" || ".intercalate fails}"
+        | _ => some s!"{cs.tag} | {outcomeName cs.out} | - | "
+    else none
   | _ => none
 
 end Moyo.DriverMag
